@@ -164,6 +164,44 @@ def parseRCfg (s : String) : Option RCfg :=
     else none
   | _ => none
 
+def tableFind (tbl : List ((Nat × Nat) × Nat)) (a b : Nat) : Option Nat :=
+  (tbl.find? (fun e => e.1.1 == a && e.1.2 == b)).map (·.2)
+
+/-- the hash of a partial trie under the table, or the hash evaluations `(a, b)` that are missing (only
+those whose arguments are already known) -/
+def ptNeed (tbl : List ((Nat × Nat) × Nat)) : PT Nat → List (Nat × Nat) × Nat
+  | .nil => ([], 0)
+  | .hash h => ([], h)
+  | .leaf v => ([], v)
+  | .bin l r =>
+    let (ml, hl) := ptNeed tbl l
+    let (mr, hr) := ptNeed tbl r
+    if !ml.isEmpty || !mr.isEmpty then (ml ++ mr, noFelt)
+    else match tableFind tbl hl hr with
+      | some h => ([], h)
+      | none => ([(hl, hr)], noFelt)
+  | .edge p c =>
+    let (mc, hc) := ptNeed tbl c
+    if !mc.isEmpty then (mc, noFelt)
+    else match tableFind tbl hc (pathVal p) with
+      | some h => ([], (h + p.length) % feltPrime)
+      | none => ([(hc, pathVal p)], noFelt)
+
+/-- the rebuilt trie of `verifyMulti` (its preamble, the two resolutions and `fill`), for `r2need` -/
+def multiTrie (A : HashAlg Nat) (rc : RCfg) (root : Nat) (first : Path) (kvs : List (Path × Nat))
+    (P : PSet Nat) : Option (PT Nat) :=
+  match kvs.getLast? with
+  | none => none
+  | some lastKV =>
+    if kvs.any (fun kv => decide (kv.2 = A.zero)) || !keysNonDecreasing kvs || !pathLt first lastKV.1 then none
+    else
+      match resolvePT A rc P (2 * verifyFuel) (.hash root) first with
+      | none => none
+      | some t1 =>
+        match resolvePT A rc P (2 * verifyFuel) t1 lastKV.1 with
+        | none => none
+        | some t2 => fill A rc t2 (.at first) (.at lastKV.1) first.length false kvs
+
 def step (s : Unit) (line : String) : Unit × String :=
   match words line with
   | "vL" :: cfg :: root :: key :: nodes =>
@@ -191,6 +229,20 @@ def step (s : Unit) (line : String) : Unit × String :=
     match hexToNat? root, height.toNat?, parseAll parseKV kvToks, parseAll parseFact factToks with
     | some root, some h, some kvs, some facts => (s, showRRes (verifyAll (tableAlg facts) root h kvs))
     | _, _, _, _ => (s, "bad-op")
+  | "r2need" :: cfg :: "multi" :: root :: first :: rest =>
+    let (kvToks, rest2) := splitAtBar rest
+    let (nodeToks, factToks) := splitAtBar rest2
+    match parseRCfg cfg, hexToNat? root, parseBits first, parseAll parseKV kvToks, parseNodes nodeToks,
+        parseAll parseFact factToks with
+    | some f, some root, some first, some kvs, some (ps, tbl), some facts =>
+      let all := tbl ++ facts
+      match multiTrie (tableAlg all) f root first kvs ps with
+      | none => (s, "none")
+      | some t =>
+        let need := (ptNeed all t).1.eraseDups
+        if need.isEmpty then (s, "none")
+        else (s, "need" ++ String.join (need.map (fun (a, b) => " " ++ natToHex a ++ ":" ++ natToHex b)))
+    | _, _, _, _, _, _ => (s, "bad-op")
   | "r2" :: cfg :: "multi" :: root :: first :: rest =>
     let (kvToks, rest2) := splitAtBar rest
     let (nodeToks, factToks) := splitAtBar rest2
